@@ -144,7 +144,7 @@ func (prop) Drive(d *core.Driver) error {
 	d.T.Rule = "cases = (a) one fixed case per basic kind holding every special value of the kind (extreme ints, " +
 		"NaN/Inf/-0/denormal/1e21 floats, context-breaking strings), one per static named type; (b) random types of depth <= 4 " +
 		"(all basic kinds, pointers, slices, arrays, maps with every accepted key kind, reflect.StructOf structs with json tags/omitempty/-/embedded fields, " +
-		"27 static named types incl. unexported fields and recursive structs, time.Time, any) each with 8 random values (nil at every level). " +
+		"29 static named types incl. unexported fields, recursive structs, a JSStringer type and json tag options string/omitzero/invalid names, time.Time, any) each with 8 random values (nil at every level). " +
 		"Every value is rendered through a statically typed global and an any-typed global in 3 .js holes, 10 HTML <script> JS variants, 1 Markdown script, " +
 		"4 JSON-LD script variants, 1 Markdown JSON-LD script and a .json file (3 holes). For the fixed cases and every second random case each value is " +
 		"additionally written as template source (typed composite literal; the named types declared with {% type %} in the template) and shown in a JS and a JSON-LD script, " +
@@ -153,7 +153,7 @@ func (prop) Drive(d *core.Driver) error {
 	d.T.Assumptions = []string{
 		"JS oracle is the literal grammar of ECMA-262 as implemented (and unit-tested) in verif/oracle/jsvalue, strict-mode (module) grammar",
 		"JSON reference is encoding/json of the pinned toolchain; values it rejects (NaN, Inf, bool/float/complex map keys, years outside 0..9999) are judged for validity only",
-		"json tags limited to name, omitempty, '-', unknown options; names valid for encoding/json; effective field names distinct inside a struct; no ',string', no Marshaler/TextMarshaler types other than time.Time, no error values",
+		"json tags: name, omitempty, omitzero, string, '-', unknown options, names invalid for encoding/json; effective field names distinct inside a struct; no Marshaler/TextMarshaler types other than time.Time and the JSer type of the harness, no error values",
 		"time.Time within the JavaScript Date range (years -270000..275000); map keys: no NaN, valid UTF-8, no uintptr (toString defect owned by C09)",
 		"in JS an embedded struct is accepted as one property named after its type (scriggo's model); numbers are compared as JavaScript Numbers (float64), float32 after rounding to float32",
 	}
